@@ -464,6 +464,30 @@ def _check_param_rebinding(cls: str, fn: ast.FunctionDef, param: str) -> None:
                 raise TranslateError(f'{cls}.copy: the map parameter `{param}` is re-bound at line {n.lineno} in a way that is not understood')
 
 
+def _resolve_iter(expr: ast.AST, fn: ast.FunctionDef, where: str) -> ast.Attribute:
+    """The attribute a loop iterates over, through `list(..)`-like wrappers and single-assignment locals; fail-closed."""
+    for _ in range(6):
+        if isinstance(expr, ast.Attribute):
+            return expr
+        if isinstance(expr, ast.Call) and isinstance(expr.func, ast.Name) and expr.func.id in ('list', 'tuple', 'sorted', 'reversed', 'iter') \
+                and expr.args:
+            expr = expr.args[0]
+            continue
+        if isinstance(expr, ast.Call) and isinstance(expr.func, ast.Attribute) and expr.func.attr in ('values', 'copy') and not expr.args:
+            expr = expr.func.value      # <dict>.values() / <list>.copy()
+            continue
+        if isinstance(expr, ast.Subscript) and isinstance(expr.slice, ast.Slice):
+            expr = expr.value           # <list>[:]
+            continue
+        if isinstance(expr, ast.Name):
+            v = c08_norm.single_assignment(fn, expr.id)
+            if v is not None:
+                expr = v
+                continue
+        break
+    raise TranslateError(f'{where}: cannot tell what `{ast.unparse(expr)}` (line {getattr(expr, "lineno", "?")}) iterates over')
+
+
 def _copy_census(vmf_tree: ast.Module, inst_tree: ast.Module) -> list[tuple[str, str, bool, int]]:
     """(kind, description, allocates in the destination map?, line) for every ID-relevant call in copy()/collapse_one."""
     cont = _id_containers(vmf_tree)
@@ -483,8 +507,8 @@ def _copy_census(vmf_tree: ast.Module, inst_tree: ast.Module) -> list[tuple[str,
                 rows.append((ID_CLASSES[f.id], f'{cls}.copy: {f.id}(...)', ok, call.lineno))
                 n_ctor += f.id == cls
             elif isinstance(f, ast.Attribute) and f.attr == 'copy' and isinstance(f.value, ast.Name) and f.value.id in binds:
-                it = binds[f.value.id]
-                if isinstance(it, ast.Attribute) and isinstance(it.value, ast.Name) and it.value.id == 'self':
+                it = _resolve_iter(binds[f.value.id], fn, f'{cls}.copy')
+                if isinstance(it.value, ast.Name) and it.value.id == 'self':
                     elem = cont.get(cls, {}).get(it.attr)
                     if elem is None:
                         continue        # a container of objects without IDs (planes, outputs, ...)
@@ -511,9 +535,9 @@ def _copy_census(vmf_tree: ast.Module, inst_tree: ast.Module) -> list[tuple[str,
             rows.append((ID_CLASSES[f.id], f'collapse_one: {f.id}(...)', ok, call.lineno))
         if not (isinstance(f, ast.Attribute) and f.attr == 'copy' and isinstance(f.value, ast.Name) and f.value.id in binds):
             continue
-        it = binds[f.value.id]
+        it = _resolve_iter(binds[f.value.id], fn, 'collapse_one')
         # iterables of the form <anything>.vmf.<attr> / <anything>.<attr> with attr a VMF container of ID objects
-        if isinstance(it, ast.Attribute) and it.attr in cont.get('VMF', {}):
+        if it.attr in cont.get('VMF', {}):
             elem = cont['VMF'][it.attr]
             callee_param, callee_idx = sigs[elem][1], sigs[elem][2]
             ok = _is_forward(_map_arg(call, callee_idx, (callee_param,)), dest)
@@ -540,6 +564,15 @@ def _node_shape(vmf_tree: ast.Module, acquires, releases) -> tuple[bool, bool]:
                                         and isinstance(t.slice, ast.Constant) and isinstance(t.slice.value, str)
                                         and t.slice.value.casefold() == 'nodeid'):
                                     in_del = True
+                        # the other spellings of the same deletion: self.pop('nodeid'[, default]), self.__delitem__('nodeid'),
+                        # self.clear() / self.clear_keys() (they all end in __delitem__('nodeid'))
+                        if isinstance(st, ast.Call) and isinstance(st.func, ast.Attribute) and isinstance(st.func.value, ast.Name) \
+                                and st.func.value.id == 'self':
+                            if st.func.attr in ('pop', '__delitem__') and st.args and isinstance(st.args[0], ast.Constant) \
+                                    and isinstance(st.args[0].value, str) and st.args[0].value.casefold() == 'nodeid':
+                                in_del = True
+                            if st.func.attr in ('clear', 'clear_keys') and not st.args:
+                                in_del = True
     return realloc, in_del
 
 
